@@ -373,6 +373,37 @@ func runForeign(c *kcCase, usage, source byte, cki []byte, ckiClass string, doTa
 	r.Nontrivial(fmt.Sprintf("foreign|%s|%d|%d|%x", c.fingerprint(), usage, source, cki))
 }
 
+// noKeyID: a blob without the KeyID entry (KeyHash is then the first entry). What the hash covers
+// is still everything after the KeyHash entry: the blob passes its integrity check, re-serialises
+// to itself, and every bit flipped after the KeyHash entry is detected.
+func noKeyID(c *kcCase, usage, source byte) {
+	exp := []byte{byte(c.Exp >> 24), byte(c.Exp >> 16), byte(c.Exp >> 8), byte(c.Exp)}
+	material := refBuildRSA(c.KeySize, exp, c.Mod, c.P1, c.P2)
+	dev := refGUIDPacket(c.Dev.A, c.Dev.B, c.Dev.C, c.Dev.D, c.Dev.E)
+	blob := refBuildOpt(true, c.Version, material, usage, source, dev, []byte{1, 0}, c.LastLogon, c.Creation)
+	cs := c.json()
+	cs["blob_hex"], cs["key_id_entry"] = mon.FullHex(blob), "absent"
+	rb, _ := refParse(blob)
+	guard("KeyCredential.no-key-id", cs, func() {
+		var k kcl.KeyCredential
+		err := k.FromBytes(append([]byte{}, blob...))
+		ev(1)
+		if err != nil {
+			r.Count("blobs_without_key_id_refused", 1)
+			return
+		}
+		if !k.CheckIntegrity() {
+			r.Violation("KeyCredential.CheckIntegrity:no-key-id", "CheckIntegrity() is false on an untouched blob that has no KeyID entry", cs)
+			return
+		}
+		if again, err := k.ToBytes(); err != nil || !bytes.Equal(again, blob) {
+			r.Violation("KeyCredential.ToBytes:reserialize-no-key-id", fmt.Sprintf("a blob without KeyID entry re-serialises differently (first difference at %d, err=%v)", firstDiff(blob, again), err), cs)
+		}
+		tamper(blob, rb, cs)
+	})
+	r.Nontrivial(fmt.Sprintf("no-key-id|%s|%d|%d", c.fingerprint(), usage, source))
+}
+
 // ---------------------------------------------------------------------------------
 // DN-with-binary
 
@@ -681,6 +712,9 @@ func main() {
 				runForeign(c, usage, byte((i+j)%2), forms[j], classes[j], j == i%len(forms))
 			}
 			runLegacy(c, []string{"NGC", "FIDO", "FEK", "ab", strings.Repeat("L", 300)}[i%5])
+			if i%3 == 0 {
+				noKeyID(c, []byte{1, 2, 7}[i%3], byte(i%2))
+			}
 			if blob != nil {
 				checkDN(dnBoundary[i%len(dnBoundary)], blob, true)
 			}
